@@ -330,6 +330,7 @@ class Imaging(AbstractDataset):
             noise_covariance_matrix=noise_covariance_matrix,
             over_sampling=self.over_sampling,
             pad_for_convolver=True,
+            use_normalized_psf=self.use_normalized_psf,
         )
 
         dataset.unmasked = unmasked_dataset
@@ -423,6 +424,7 @@ class Imaging(AbstractDataset):
             over_sampling=self.over_sampling,
             pad_for_convolver=False,
             check_noise_map=False,
+            use_normalized_psf=self.use_normalized_psf,
         )
 
         logger.info(
@@ -476,6 +478,7 @@ class Imaging(AbstractDataset):
             over_sampling=over_sampling,
             pad_for_convolver=False,
             check_noise_map=False,
+            use_normalized_psf=self.use_normalized_psf,
         )
 
     def output_to_fits(
